@@ -157,7 +157,8 @@ theorem genNormalizeVar_eq (np : NpStats) (mode : Mode) (e : Bool) (x : Arg Arr)
 /-! ## no_op, gradient, gaussian_filter -/
 
 theorem genNoOp_eq {P : Type} (sh : P → List Nat) (x : Arg P) : genNoOp sh x = ndfeature sh noOp x := by
-  simp only [genNoOp, genNdfeature_eq]; rfl
+  simp only [genNoOp, genNdfeature_eq]
+  congr 1
 
 /-- the list plumbing of `gradient` (per-channel `np.gradient`, chain, `[i::n_dims]`, concatenate) is the model's
 "all axis-0 gradients, then all axis-1 gradients", and the two refusals are the model's, on every rectangular array
